@@ -98,5 +98,52 @@ def attackSpec (a d s0 : α) (sus : List α) (n : Nat) : List α :=
 
 end Shapes
 
+/-! ### oscillators
+
+Positions are *unreduced* running sums `x_k = p_k + Σ_{i<k} s_i`; the table oscillator is the
+cyclic linear interpolation of its table there, the sinusoid is the sine there. -/
+
+/-- `x_k = p_k + acc + Σ_{i<k} s_i` -/
+def runSumFrom : α → List α → List α → List α
+  | acc, p :: ps, s :: ss => (p + acc) :: runSumFrom (acc + s) ps ss
+  | _, _, _ => []
+
+/-- cyclic linear interpolation of `tbl` at position `x` (any real position, any sign) -/
+def interpCyc (tbl : List α) (x : α) : α :=
+  let L : Int := tbl.length
+  let i : Int := Floor.floor x
+  let fr := x - (i : α)
+  tbl.getD (i.fmod L).toNat 0 * (1 - fr) + tbl.getD ((i + 1).fmod L).toNat 0 * fr
+
+section Osc
+variable [DecidableEq α] [LT α] [DecidableLT α]
+
+/-- `TableLookup(tbl, cycles)(freq, phase)`: one table per `cycles·2π` radians -/
+def tableSpec (tbl : List α) (den : α) (freq phase : Arg α) (n : Nat) : List α :=
+  let c : α := ((tbl.length : Int) : α) / den
+  (runSumFrom 0 ((phase.map (c * ·)).expand n) ((freq.map (c * ·)).expand n)).map (interpCyc tbl)
+
+/-- `sinusoid(freq, phase)`: `sin(phase_k + Σ_{i<k} freq_i)`; for numbers `sin(phase + k·freq)` -/
+def sinusoidSpec {β : Type} (sin : α → β) (freq phase : Arg α) (n : Nat) : List β :=
+  (runSumFrom 0 (phase.expand n) (freq.expand n)).map sin
+
+end Osc
+
+/-- linearised feedback comb on zero input: `y[k] = alpha·((1-w)·y[k-D] + w·y[k-D-1])`,
+    `D = ⌊delay⌋`, `w = delay - D`; `hist = [y[k-1], y[k-2], …]` ends with the initial memory -/
+def ksSpecLoop (alpha delay : α) : Nat → List α → List α
+  | 0, _ => []
+  | fuel + 1, hist =>
+    let D : Int := Floor.floor delay
+    let w := delay - (D : α)
+    let y := alpha * ((1 - w) * hist.getD (D.toNat - 1) 0 + w * hist.getD D.toNat 0)
+    y :: ksSpecLoop alpha delay fuel (y :: hist)
+
+/-- initial memory: the first `⌈delay⌉` given items, left-padded with zeros when fewer -/
+def karplusSpec (alpha delay : α) (memory : List α) (n : Nat) : List α :=
+  let lm : Nat := (-(Floor.floor (-delay) : Int)).toNat
+  let m := memory.take lm
+  ksSpecLoop alpha delay n (List.replicate (lm - m.length) 0 ++ m)
+
 end Arith
 end ALV.C19
